@@ -20,11 +20,10 @@ use crate::vfs::{UrlExt, Vfs};
 
 pub fn position(line_index: &LineIndex, position: TextSize) -> lsp_types::Position {
     let line = line_index.pos_to_line(position);
-    let line_first = line_index.line_to_pos(line);
-    let character = position - line_first;
+    let character = line_index.pos_to_utf16_col(position);
     lsp_types::Position::new(
         line.try_into().expect("line out of range"),
-        character.into(),
+        character.try_into().expect("character out of range"),
     )
 }
 
